@@ -542,6 +542,23 @@ func runDesc(line []byte, rec *recorder) {
 				e["got"] = projDescriptors(got)
 			}
 			rec.ev(e)
+			// a descriptor whose declared length runs past the end of its loop: what follows the loop (the next loop entries of the table)
+			// stays where the loop length puts it, or the loop is refused
+			{
+				over := 1 + r.intn(6)
+				lp := append(append(append([]byte(nil), a...), m[0], byte(len(m)-2+over)), m[2:]...)
+				bb := append(append([]byte{0xf0 | byte(len(lp)>>8), byte(len(lp))}, lp...), z...)
+				var off2 int
+				var gerr2 error
+				if pn := safeCall(func() { _, off2, gerr2 = astits.VerifParseDescriptors(bb) }); pn != nil {
+					gerr2 = fmt.Errorf("panic %v", pn)
+				}
+				e2 := M{"ev": "dover", "class": "descriptor-longer-than-its-loop", "mid": midKind, "gerr": errStr(gerr2), "goff": off2, "loopend": 2 + len(lp), "blen": len(bb)}
+				if gerr2 != nil && fmt.Sprint(gerr2)[:5] == "panic" {
+					e2["gerr"] = "panic"
+				}
+				rec.ev(e2)
+			}
 		}
 	default:
 		fatal("unknown desc part %q", sc.Part)
